@@ -90,6 +90,18 @@ pub fn ladder(kind: &str, n: usize) -> Option<String> {
         "doc-cast" => format!("---@cast x {}A{}\n", rep("(", n), rep(")", n)),
         "doc-attribute" => format!("---@[{}a{}]\nlocal x", rep("a(", n), rep(")", n)),
         "doc-in-nest" => format!("x = {}\n---@type {}A{}\nlocal y = 1\n{}", rep("function()\n", n / 2 + 1), rep("(", n / 2 + 1), rep(")", n / 2 + 1), rep(" end", n / 2 + 1)),
+        // nesting constructs interleaved with doc comments whose types are nested themselves, at every level:
+        // code depth and doc-type depth share one level counter
+        "mixed-doc-table" => format!("x = {}1{}", rep("{\n---@type ((((((((((((((((A))))))))))))))))\n", n), rep("}", n)),
+        "mixed-doc-table-open" => format!("x = {}", rep("{\n---@type ((((((((((((((((A))))))))))))))))\n", n)),
+        "mixed-doc-paren" => format!("x = {}1{}", rep("(\n---@type A<A<A<A<A<A<A<A<A<A<A<A<A<A<A<A<A>>>>>>>>>>>>>>>>\n", n.min(5000)), rep(")", n.min(5000))),
+        "mixed-doc-call" => format!("x = {}1{}", rep("f(\n---@type fun(a: fun(a: fun(a: fun(a: fun(a: fun(a: fun(a: fun(a: fun(a: fun(a: A))))))))))\n", n.min(5000)), rep(")", n.min(5000))),
+        "mixed-doc-closure" => format!("x = {}1{}", rep("function()\n---@type {a: {a: {a: {a: {a: {a: {a: {a: {a: {a: A}}}}}}}}}}\nreturn ", n), rep(" end", n)),
+        "mixed-doc-do" => format!("{}{}", rep("---@type ((((((((((((((((A))))))))))))))))\ndo\n", n), rep("end\n", n)),
+        "mixed-doc-if" => format!("{}{}", rep("---@type [[[[[[[[[[[[[[[[A]]]]]]]]]]]]]]]]\nif x then\n", n), rep("end\n", n)),
+        "mixed-doc-func" => format!("{}{}", rep("---@param a fun(x: fun(x: fun(x: fun(x: fun(x: fun(x: fun(x: fun(x: A))))))))\nfunction f(a)\n", n), rep("end\n", n)),
+        "mixed-doc-deep-type" => format!("x = {}1{}", rep(&format!("{{\n---@type {}A{}\n", "(".repeat(210), ")".repeat(210)), n.min(3000)), rep("}", n.min(3000))),
+        "mixed-doc-conditional" => format!("x = {}1{}", rep("{\n---@type A extends B and A extends B and A extends B and A extends B and A extends B and A or C or C or C or C or C\n", n.min(5000)), rep("}", n.min(5000))),
         "nested-comment-in-table" => format!("x = {}\n--- doc\n1{}", rep("{", n), rep("}", n)),
         _ => return None,
     })
@@ -104,6 +116,8 @@ pub const LADDERS: &[&str] = &[
     "doc-intersection", "doc-array", "doc-nullable", "doc-fun", "doc-fun-ret", "doc-object", "doc-tuple", "doc-keyof",
     "doc-conditional", "doc-conditional-chain", "doc-conditional-else-chain", "doc-multiline-union", "doc-param-fun", "doc-overload", "doc-class-generic", "doc-cast", "doc-attribute",
     "doc-in-nest", "nested-comment-in-table",
+    "mixed-doc-table", "mixed-doc-table-open", "mixed-doc-paren", "mixed-doc-call", "mixed-doc-closure", "mixed-doc-do", "mixed-doc-if",
+    "mixed-doc-func", "mixed-doc-deep-type", "mixed-doc-conditional",
 ];
 
 /// child mode: one case per stdin line `<level> <doc 0|1> <hex text>`; one answer line per case
@@ -189,6 +203,8 @@ pub enum Outcome {
     Panic,
     Crash(String), // child died: stack overflow / abort
     Timeout(u128),
+    /// not run: the run already spent its allowance on inputs the parser did not return on
+    Skipped,
 }
 
 impl Outcome {
@@ -197,7 +213,8 @@ impl Outcome {
             Outcome::Ok { .. } => "ok".into(),
             Outcome::Panic => "LuaParser::parse panicked".into(),
             Outcome::Crash(st) => format!("the child process died while parsing on a 2 MiB stack / 4 GiB address space ({st}): stack overflow, abort or out of memory"),
-            Outcome::Timeout(ms) => format!("no result within the budget of {ms} ms in three attempts (hang)"),
+            Outcome::Timeout(ms) => format!("no result within the budget of {ms} ms (hang or far beyond linear time)"),
+            Outcome::Skipped => "skipped".into(),
         }
     }
 }
@@ -288,7 +305,16 @@ fn attempt_alone(c: &Case, b: Duration) -> Outcome {
 pub fn run_cases(cases: &[Case]) -> Vec<Outcome> {
     let mut out: Vec<Outcome> = Vec::with_capacity(cases.len());
     let mut confirmed = 0usize;
+    // wall-clock allowance for inputs the parser does not return on: when a defect makes very many
+    // generated inputs hang, the first failures are reported concretely and the rest is skipped, so that
+    // the check itself always ends
+    let allowance = Duration::from_secs(if cases.len() > 500_000 { 900 } else { 240 });
+    let mut spent = Duration::ZERO;
     while out.len() < cases.len() {
+        if spent > allowance {
+            out.push(Outcome::Skipped);
+            continue;
+        }
         let first = out.len();
         let child = spawn_child();
         let Child { mut proc, stdin, lines } = child;
@@ -331,6 +357,10 @@ pub fn run_cases(cases: &[Case]) -> Vec<Outcome> {
         if let Some(mut o) = failed {
             let c = &cases[out.len()];
             let b = budget(c.text.len());
+            let t_fail = Instant::now();
+            if matches!(o, Outcome::Timeout(_)) {
+                spent += b;
+            }
             if confirmed < 6 {
                 for _ in 0..2 {
                     let o2 = attempt_alone(c, b);
@@ -344,6 +374,7 @@ pub fn run_cases(cases: &[Case]) -> Vec<Outcome> {
             if !matches!(o, Outcome::Ok { .. }) {
                 confirmed += 1;
             }
+            spent += t_fail.elapsed();
             out.push(o);
         }
     }
@@ -461,6 +492,7 @@ pub fn run(args: &Args, report: &mut Report) {
                     report.sample(json!({"input": input, "errors": errors, "too_many_levels_reported": too_deep, "micros": micros.to_string()}));
                 }
             }
+            Outcome::Skipped => report.count("skipped_after_failure_allowance"),
             other => report.oracle_failure(json!({"input": input, "what": format!("parser did not return a tree on this input: {}", other.describe()), "class": classify(c)})),
         }
     }
